@@ -124,7 +124,7 @@ PROPS = {
         trusted=CONN_TRUST,
     ),
     "C15": dict(
-        domains=[("conn", "faults", 500, 6000), ("conn", "multi", 300, 4000), ("conn", "accept", 60, 600)],
+        domains=[("conn", "faults", 500, 6000), ("conn", "faults2", 300, 4000), ("conn", "multi", 300, 4000), ("conn", "accept", 60, 600)],
         thorough_extra=[("conn", "cnall5", 1, 1)],
         relevant=["C15:"],
         theorems=["DV.Props.C15."+t for t in ["C15_panic_contained","C15_bad_input_contained","C15_one_report","C15_fault_cleanup","C15_frame","C15_mux_lock","C15_mux_lock_needs_defer","C15_listener","C15_listener_perm","C15_gen"]],
